@@ -97,7 +97,7 @@ func oracleC07(res *Result, c *Case) {
 			if n.Op == "secondary" {
 				checkVisible(res, c, n.Op, e, hidden)
 			}
-		case "handled", "handleasassertion", "newassertionwrapped":
+		case "handled", "handledindomain", "handleasassertion", "newassertionwrapped":
 			if k0 == nil || k0.built == nil {
 				continue
 			}
@@ -130,6 +130,9 @@ func oracleC07(res *Result, c *Case) {
 			// message: Handled keeps the hidden text exactly, the WithMessage variants replace it
 			res.OracleEvals["C07.barrier_text"]++
 			want := hidden.Error()
+			if n.Op == "handledindomain" && nin(n, 0) == 1 {
+				want = in(n, 1)
+			}
 			if n.Op == "handled" {
 				switch nin(n, 0) {
 				case 1:
